@@ -259,6 +259,7 @@ class Recorder:
 
     def step_raw(self, eid, arg, adesc, u, grp=None):
         env = self.envs[eid]
+        arg_copy = arg.copy() if isinstance(arg, np.ndarray) else None
         before = env.current_state.tensor.copy()
         steps_before = int(env.steps)
         with self.trip.scripted(u):
@@ -285,7 +286,8 @@ class Recorder:
                                 and isinstance(info, dict)),
                   shares_memory=bool(np.shares_memory(before, after)),
                   installed=bool(np.array_equal(env.last_obs.numpy().reshape(-1), np.asarray(obs).reshape(-1))),
-                  lastobs_sha=sha(env.last_obs.numpy()), cur_sha=sha(after))
+                  lastobs_sha=sha(env.last_obs.numpy()), cur_sha=sha(after),
+                  arg_modified=bool(arg_copy is not None and not np.array_equal(arg_copy, arg)))
         if grp is not None:
             ev["grp"] = grp
         self.last_post[eid] = after.copy()
@@ -295,6 +297,7 @@ class Recorder:
         """state: an implementation State object (e.g. one returned earlier), or None = env.current_state"""
         env = self.envs[eid]
         arg, adesc = self.action_arg(env, spec)
+        arg_copy = arg.copy() if isinstance(arg, np.ndarray) else None
         if state is None:
             state = env.current_state
         argt = state.tensor
@@ -329,7 +332,8 @@ class Recorder:
                   lastobs_sha=[obs_before, sha(env.last_obs.numpy())],
                   shares_memory=bool(np.shares_memory(state.tensor, nstate.tensor)
                                      or np.shares_memory(env.current_state.tensor, nstate.tensor)),
-                  cur_drift=diff_rows(cur_copy, env.current_state.tensor))
+                  cur_drift=diff_rows(cur_copy, env.current_state.tensor),
+                  arg_modified=bool(arg_copy is not None and not np.array_equal(arg_copy, arg)))
         if grp is not None:
             ev["grp"] = grp
         return self.emit(ev), nstate
